@@ -597,6 +597,11 @@ class Evaluator(object):
                     return recv.pop(*args)
                 except Exception as e:
                     raise PyRaise('pop failed: %r' % (e,), type(e).__name__, e)
+            if (_is_model_class(recv) or isinstance(recv, ModelValue)) and f.attr in getattr(recv, 'model_methods', ()):
+                try:
+                    return getattr(recv, f.attr)(*args, **kw)       # a method the checker-side model of the class declares (modint's maxcast)
+                except Exception as e:
+                    raise PyRaise('method %s failed: %r' % (f.attr, e), type(e).__name__, e)
             if isinstance(recv, Opaque):
                 return Opaque('%s.%s(...)' % (recv.what, f.attr), n)
         if not isinstance(f, (ast.Name, ast.Attribute)) or (isinstance(f, ast.Attribute) and f.attr == '__class__'):
